@@ -476,6 +476,13 @@ impl Reload {
                 let gap = if last { 0 } else { *rng.pick(&[150u64, 200, 300, 1300]) };
                 steps.push(format!("{}@{gap}", to_hex(text.as_bytes())));
             }
+            // one scenario in three: the file is overwritten with something NOT applicable (empty / garbage) shortly after
+            // the last SIGHUP, without a signal - a non-atomic in-place rewrite caught between two reads.  The list that
+            // was accepted when the signal arrived is the one to apply; nothing may read the file again
+            if rng.chance(1, 3) {
+                let junk = *rng.pick(&["", "\n\n", "# rewriting...\n", "not-an-ip\n256.1.1.1\n"]);
+                steps.push(format!("{}@!", to_hex(junk.as_bytes())));
+            }
             return vec![format!("evloop ips={} steps={}", join_list(&initial), steps.join(";"))];
         }
         if idx < pairs {
@@ -670,11 +677,25 @@ impl Reload {
             return;
         };
         let mut plan: Vec<(String, u64)> = Vec::new();
+        let mut scribble: Option<String> = None;
         for st in steps.strip_prefix("steps=").unwrap_or("").split(';') {
             let Some((h, g)) = st.split_once('@') else {
                 mon.count("evloop-unparsed");
                 return;
             };
+            if g == "!" {
+                // last step only: overwrite the file WITHOUT a signal
+                let Some(bytes) = parse_hex(h).or_else(|| if h == "-" || h.is_empty() { Some(Vec::new()) } else { None }) else {
+                    mon.count("evloop-unparsed");
+                    return;
+                };
+                scribble = Some(String::from_utf8_lossy(&bytes).into_owned());
+                continue;
+            }
+            if scribble.is_some() {
+                mon.count("evloop-unparsed");
+                return;
+            }
             let (Some(bytes), Ok(g)) = (parse_hex(h), g.parse::<u64>()) else {
                 mon.count("evloop-unparsed");
                 return;
@@ -713,6 +734,13 @@ impl Reload {
             }
         }
         let want: BTreeSet<IpAddr> = parsable(&plan[plan.len() - 1].0).into_iter().collect();
+        // with a scribble the signal may be handled only AFTER the file was overwritten (then the reload is refused and
+        // the previous set stays): both outcomes are what C19 allows, anything else is not
+        let prev_want: BTreeSet<IpAddr> = if plan.len() >= 2 { parsable(&plan[plan.len() - 2].0).into_iter().collect() } else { initial.iter().copied().collect() };
+        if scribble.as_deref().is_some_and(|t| !parsable(t).is_empty()) {
+            mon.count("evloop-unparsed");
+            return;
+        }
         let path = self.dir.join("evloop_ips.txt");
         let init_text: String = initial.iter().map(|i| format!("{i}\n")).collect();
         if std::fs::write(&path, init_text).is_err() {
@@ -775,13 +803,20 @@ impl Reload {
                 }
                 tokio::time::sleep(Duration::from_millis(*gap)).await;
             }
+            if let Some(junk) = &scribble {
+                // let the signal reach the loop (it queues the list it parsed), then overwrite the file without a
+                // signal and give the next housekeeping tick time to apply what was queued
+                tokio::time::sleep(Duration::from_millis(150)).await;
+                let _ = std::fs::write(&file, junk);
+                tokio::time::sleep(Duration::from_millis(2600)).await;
+            }
             // settled = equal to the expected set for two consecutive housekeeping periods
             let t1 = Instant::now();
             let mut ok_since: Option<Instant> = None;
             let mut seen = live(&stats);
-            while t1.elapsed() < Duration::from_secs(60) {
+            while t1.elapsed() < Duration::from_secs(if scribble.is_some() { 12 } else { 60 }) {
                 seen = live(&stats);
-                if seen == want {
+                if seen == want || (scribble.is_some() && seen == prev_want) {
                     if ok_since.is_none() {
                         ok_since = Some(Instant::now());
                     }
@@ -817,7 +852,21 @@ impl Reload {
                 if want == init_set && plan.len() >= 2 {
                     mon.count("evloop-scenario:edit-reverted");
                 }
-                if seen != want {
+                if scribble.is_some() {
+                    mon.count("evloop-scenario:file-overwritten-after-sighup");
+                    if seen == prev_want && prev_want != want {
+                        mon.count("evloop-scenario:signal-after-overwrite");
+                    }
+                    if seen != want && seen != prev_want {
+                        mon.fail(
+                            "C19",
+                            "evloop-reread-after-sighup",
+                            format!(
+                                "real event loop: started with {init_set:?}; the file listed {want:?} when the last SIGHUP was raised (before it: {prev_want:?}) and was overwritten with text that holds no address 150 ms later, without a signal; the sender then runs {seen:?} - neither the list accepted at the signal nor the refused-reload outcome"
+                            ),
+                        );
+                    }
+                } else if seen != want {
                     mon.fail(
                         "C19",
                         "evloop-applied-list",
